@@ -58,8 +58,19 @@ def main():
             "add_only": True,
         },
         "engines": [
-            {"name": "hypothesis", "path": "vlib/core.py", "serves_properties": sorted(claimed),
-             "kind_free_text": "Hypothesis 6.168 strategies -> JSON case -> run_case against the real Rally code; bounded shrinking; replay files bypass the library"},
+            {"name": "hypothesis-driver", "path": "vlib/core.py", "serves_properties": sorted(claimed),
+             "kind_free_text": "Hypothesis 6.168 strategies -> JSON case -> run_case against the real Rally code; bounded shrinking with root-cause muting; "
+                               "16-shard thorough tier; replay files and probes bypass the library; evidence writer"},
+            {"name": "E1-simsys", "path": "sim/", "serves_properties": ["C01", "C03", "C04", "C05", "C07", "C09", "C11", "C12", "C18"],
+             "kind_free_text": "virtual-time simulator: virtual clock + asyncio loop (sim/kernel.py), Thespian actor runtime with generated message delays, "
+                               "process boundaries, retry/poison/exit semantics and pre-emption points (sim/actors.py), scripted Elasticsearch endpoint, runner and "
+                               "parameter source (sim/world.py), scenario runners for one task (sim/loadgen.py), a whole race incl. racecontrol.race() and fault "
+                               "injection (sim/race.py) and engine start/stop (sim/engine.py); self-test against thespian simpleSystemBase (sim/selftest.py)"},
+            {"name": "E2-generators", "path": "gen/", "serves_properties": sorted(claimed),
+             "kind_free_text": "Hypothesis strategies that construct valid inputs: schedules and filters, races, single tasks, tracks, corpora, ES responses, "
+                               "metric records and race results, team directories"},
+            {"name": "E3-faultlab", "path": "lab/", "serves_properties": ["C14", "C19", "C02", "C11"],
+             "kind_free_text": "real files/archives, loopback HTTP server playing fault scripts, fork-and-kill crash points (C14); atheris driver (C19); allocator oracle (C02/C11)"},
         ],
         "checks": checks,
         "notes": "All checks: /venv/bin/python run_check.py <ID> --tier quick|thorough [--replay FILE]. Exit 0 held / 1 VIOLATION / 2 harness error. Known and fixed findings: known_findings.json.",
